@@ -155,8 +155,9 @@ class Engine:
     minimise_budget = {"quick": 500, "thorough": 2000}
     rule = ("one run = one seeded history of the real `annet diff` and `annet deploy` for a whole-file (PC) device: 1-5 Entire "
             "generators (paths with collisions, pairwise distinct priorities incl. the class default, outputs as strings / tuples "
-            "/ multi-line, with or without final newline, empty; reload strings; is_safe), listed in a drawn order; device file "
-            "store drawn equal / different / absent / newline-only different / empty; entire_reload in {yes,no,force}; 2-4 steps "
+            "/ multi-line, with or without final newline, empty; reload strings; is_safe), listed in a drawn order (in a third of the "
+            "runs the same generator objects then also serve 2-3 devices of one platform, some paths carrying the host name); device file "
+            "store drawn equal / different / permuted / trailing blanks / absent / newline-only different / empty; entire_reload in {yes,no,force}; 2-4 steps "
             "of (generators change | someone edits a file | file fetch fails | diff | deploy, device applies the upload). "
             "Non-trivial = >=1 file uploaded. Distinct = SHA-256 over (listing order, per-step upload sets, reload mode).")
     components_real = ["annet.api.adeploy / PCDeployerJob.parse_result / Deployer", "annet.api.diff -> annet.diff.worker / pc_diff / "
